@@ -41,6 +41,7 @@ from ..lowlevel.api_async.backend.abc import AsyncBackend, CancelScope, ILock
 from ..lowlevel.api_async.backend.utils import BuiltinAsyncBackendLiteral, ensure_backend
 from ..lowlevel.api_async.endpoints.stream import AsyncStreamEndpoint
 from ..lowlevel.api_async.transports.abc import AsyncStreamTransport
+from ..lowlevel.api_async.transports.utils import aclose_forcefully
 from ..lowlevel.socket import (
     INETSocketAttribute,
     SocketAddress,
@@ -429,10 +430,16 @@ class AsyncTCPNetworkClient(AbstractAsyncNetworkClient[_T_SentPacket, _T_Receive
         if self.__socket_connector is not None:
             self.__socket_connector.scope.cancel()
             self.__socket_connector = None
-        async with self.__send_lock:
-            if self.__endpoint is None:
-                return
-            await self.__endpoint.aclose()
+        try:
+            async with self.__send_lock:
+                if self.__endpoint is None:
+                    return
+                await self.__endpoint.aclose()
+        except self.__backend.get_cancelled_exc_class():
+            # Cancelled while waiting for a pending send_packet() to finish: close abruptly, as documented.
+            if self.__endpoint is not None:
+                await aclose_forcefully(self.__endpoint)
+            raise
 
     async def send_packet(self, packet: _T_SentPacket) -> None:
         """
